@@ -4,19 +4,22 @@ import GnarkVerif.Gen.Imp.KzgOpen_bls12_381
 import GnarkVerif.Props.C11_gen_bls12_381
 import GnarkVerif.Props.C11
 /-
-C11, tie T for the PROVER side of ecc/bls12-381/kzg/kzg.go: `eval`, `dividePolyByXminusA`, `Commit`, `Open` as REGENERATED from the Go text on
+C11, tie T for the PROVER side of ecc/bls12-381/kzg/kzg.go: `eval`, `dividePolyByXminusA`, `Commit`, `Open`, `BatchOpenSinglePoint` as REGENERATED from the Go text on
 every run (Gen/Imp/KzgOpen_bls12_381.lean, tools/goslp/impkzg.go: statement by statement, `[]fr.Element` = `List F` by value, element writes to a
 slice PARAMETER returned as the first component of the result; the translator is fatal outside its subset and checks the aliasing side
 conditions listed in its header).
 
-TRANSLATED: the four functions, the structs `ProvingKey`, `OpeningProof`, `ecc.MultiExpConfig`, the error sentinels.
+TRANSLATED: the five functions, the structs `ProvingKey`, `OpeningProof`, `BatchOpeningProof`, `ecc.MultiExpConfig`, the error sentinels. The goroutines /
+`parallel.Execute` of `BatchOpenSinglePoint` are read as the sequential programs they are equivalent to, under non-interference conditions that the
+translator checks (header of tools/goslp/impkzg2.go; the tiling of [0, n) by `parallel.Execute` is Props/C04_execgen).
 PARAMETERS (not looked into): the scalar type `F` with `zero`, `add`, `sub`, `mul` (fr.Element zero value / Add / Sub / Mul: C01's subject), the
 group-element type `G` with `gzero` (zero value of G1Affine = the point at infinity), and `multiExp` = `(*G1Affine).MultiExp` as an
-uninterpreted function (old receiver, points, scalars, config) ↦ (new receiver, error).
+uninterpreted function (old receiver, points, scalars, config) ↦ (new receiver, error); `deriveGamma` (Fiat–Shamir challenge of the batch proof) as an
+uninterpreted function (point, digests, claimed values, hasher, extra data) ↦ (γ, error).
 ASSUMED, as the hypothesis `hm` of the theorems that need it: on slices of EQUAL length `multiExp` returns `(msm points scalars, nil)` for a
 function `msm` that does not depend on the old receiver nor on the config (C04's subject), and it does not write its arguments.
-NOT translated: `NewSRS` (the completeness theorem takes the SRS of the hand model `Model/KZG.newSRS`), `BatchOpenSinglePoint`.
-Not modelled: panics (`eval` / `dividePolyByXminusA` on an empty slice; `Commit` / `Open` reject it before).
+NOT translated: `NewSRS` (the completeness theorem takes the SRS of the hand model `Model/KZG.newSRS`).
+Not modelled: panics (`eval` / `dividePolyByXminusA` on an empty slice; `Commit` / `Open` reject it before; `BatchOpenSinglePoint` on an empty list).
 
 Abstraction / invariant: there is no hidden state. The generated defs are functions of their arguments; the abstraction from the generated
 types to the hand model is `ProvingKey.G1 ↦ pk`, `OpeningProof ↦ (H, ClaimedValue)`, `(x, nil) ↦ .ok x`, `(_, ErrInvalidPolynomialSize) ↦ .error
@@ -420,6 +423,46 @@ theorem C11open_bls12_381_batch_model
         have hc : ¬ (q.length = 0 ∨ q.length > pk.length) := by omega
         simp only [if_pos hz', if_neg hz, if_neg hc, C11open_bls12_381_commit_abstract 0 (addm r) (subm r) (mulm r) 0 multiExp (msm r) hm]
         simp
+
+/-- COMPLETENESS of the batched opening of the translated Go text, two polynomials: for every SRS size, trapdoor, point and challenge γ, the
+generated `Commit`s, the generated `BatchOpenSinglePoint` (no error, claimed values `pᵢ(z)`) and the generated `BatchVerifySinglePoint`
+(Gen/Verifier/Kzg_bls12_381.lean at 2 digests, exponent model, same γ) accept. Polynomials of different lengths and constants included. -/
+theorem C11open_bls12_381_batch_completeness_k2
+    (hm : ∀ recv pts sc cfg, pts.length = sc.length → multiExp recv pts sc cfg = (msm r pts sc, GoImp.Err.nil))
+    (deriveGamma : ℕ → List ℕ → List ℕ → Hash → List (List UInt8) → ℕ × GoImp.Err) (γ size τ z : ℕ) (p0 p1 : List ℕ)
+    (hf : Hash) (dt : List (List UInt8))
+    (hdg : ∀ digests vals, deriveGamma z digests vals hf dt = (γ, GoImp.Err.nil))
+    (hs : ∀ p ∈ [p0, p1], p ≠ [] ∧ p.length ≤ size) (hp : ∀ p ∈ [p0, p1], ∀ c ∈ p, c < r) (hγ : γ < r) :
+    (KzgOpen_bls12_381.BatchOpenSinglePoint 0 (addm r) (subm r) (mulm r) 0 multiExp deriveGamma [p0, p1]
+        [(KzgOpen_bls12_381.Commit 0 (addm r) (subm r) (mulm r) 0 multiExp p0 ⟨powers r τ (1 % r) size⟩ []).1,
+         (KzgOpen_bls12_381.Commit 0 (addm r) (subm r) (mulm r) 0 multiExp p1 ⟨powers r τ (1 % r) size⟩ []).1] z hf ⟨powers r τ (1 % r) size⟩ dt).2
+      = GoImp.Err.nil ∧
+    (KzgOpen_bls12_381.BatchOpenSinglePoint 0 (addm r) (subm r) (mulm r) 0 multiExp deriveGamma [p0, p1]
+        [(KzgOpen_bls12_381.Commit 0 (addm r) (subm r) (mulm r) 0 multiExp p0 ⟨powers r τ (1 % r) size⟩ []).1,
+         (KzgOpen_bls12_381.Commit 0 (addm r) (subm r) (mulm r) 0 multiExp p1 ⟨powers r τ (1 % r) size⟩ []).1] z hf ⟨powers r τ (1 % r) size⟩ dt).1.ClaimedValues
+      = [KZG.eval r p0 z, KZG.eval r p1 z] ∧
+    kzg_bls12_381.BatchVerifySinglePoint_k2 (G := Ex r) (G2 := Unit) (S := Ex r) (L := ℕ × ℕ) Ex.toInt (fun _ _ _ => ⟨γ⟩) false (pcFixed r)
+      ⟨(KzgOpen_bls12_381.Commit 0 (addm r) (subm r) (mulm r) 0 multiExp p0 ⟨powers r τ (1 % r) size⟩ []).1⟩
+      ⟨(KzgOpen_bls12_381.Commit 0 (addm r) (subm r) (mulm r) 0 multiExp p1 ⟨powers r τ (1 % r) size⟩ []).1⟩
+      ⟨(KzgOpen_bls12_381.BatchOpenSinglePoint 0 (addm r) (subm r) (mulm r) 0 multiExp deriveGamma [p0, p1]
+        [(KzgOpen_bls12_381.Commit 0 (addm r) (subm r) (mulm r) 0 multiExp p0 ⟨powers r τ (1 % r) size⟩ []).1,
+         (KzgOpen_bls12_381.Commit 0 (addm r) (subm r) (mulm r) 0 multiExp p1 ⟨powers r τ (1 % r) size⟩ []).1] z hf ⟨powers r τ (1 % r) size⟩ dt).1.H⟩
+      ⟨KZG.eval r p0 z⟩ ⟨KZG.eval r p1 z⟩ ⟨z⟩ () () ⟨(vkOf r τ).g1⟩ (vkOf r τ).g2 = Res.ok := by
+  obtain ⟨c0, hc0, _⟩ := commit_srs r τ size p0 (hs p0 (by simp)).1 (hs p0 (by simp)).2
+  obtain ⟨c1, hc1, _⟩ := commit_srs r τ size p1 (hs p1 (by simp)).1 (hs p1 (by simp)).2
+  have hcs : List.Forall₂ (fun p c => commit r p (powers r τ (1 % r) size) = .ok c) [p0, p1] [c0, c1] :=
+    .cons hc0 (.cons hc1 .nil)
+  obtain ⟨H, vals, hbo, _, hver⟩ := C11_batchOpen_complete r γ τ z size [p0, p1] [c0, c1] (by simp) hs hcs
+  have hvals := batchOpen_ok_vals r γ [p0, p1] _ z _ H vals hbo
+  simp only [List.map_cons, List.map_nil] at hvals
+  subst hvals
+  simp only [C11open_bls12_381_commit_model r multiExp hm, hc0, hc1]
+  rw [C11open_bls12_381_batch_model r multiExp hm deriveGamma γ [p0, p1] [c0, c1] _ z hf dt (hdg _) (by simp) hp hγ]
+  simp only [List.length_cons, List.length_nil] at hbo ⊢
+  rw [hbo]
+  refine ⟨rfl, rfl, ?_⟩
+  rw [C11gen_bls12_381_batchSingle_k2]
+  simp only [hver, resOfVerdict, resOfBool, if_true]
 
 example : ∃ (multiExp : ℕ → List ℕ → List ℕ → KzgOpen_bls12_381.MultiExpConfig → ℕ × GoImp.Err)
     (deriveGamma : ℕ → List ℕ → List ℕ → Hash → List (List UInt8) → ℕ × GoImp.Err),
